@@ -269,6 +269,8 @@ def apply_rules(text, features=(), keep_unsafe=False):
         close = match_close(m, mm.end() - 1, '(', ')')
         out.append(t[i:mm.start()]); out.append('.unwrap()'); i = close + 1
     out.append(t[i:]); t = ''.join(out)
+    # R3: `unsafe { std::hint::unreachable_unchecked() }` is undefined behaviour if reached: same obligation as a panic
+    t = re.sub(r'unsafe\s*\{\s*(?:std|core)::hint::unreachable_unchecked\(\)\s*\}', 'verif_unreached()', t)
     # R1: raw pointers
     # alias statements: let p = &mut self.memory as *mut MemoryAreas;
     for am in list(re.finditer(r'^[ \t]*let\s+([a-z_]+)\s*=\s*(&mut\s+self\.memory|&self\.memory|self)\s+as\s+\*(?:mut|const)\s+MemoryAreas\s*;[ \t]*\n', t, flags=re.M)):
@@ -289,6 +291,55 @@ def apply_rules(text, features=(), keep_unsafe=False):
     if re.search(r'\*(const|mut)\s', mask_noncode(t)):
         raise ExtractError("unsupported construct: raw pointer outside rule R1")
     return t
+
+
+ASSIGN_OPS = r'(?:=(?!=)|\+=|-=|\*=|/=|%=|<<=|>>=|\|=|&=|\^=)'
+
+
+def assigns_field(text, fields):
+    m = mask_noncode(text)
+    for f in fields:
+        if re.search(r'\bself\s*\.\s*%s\s*(?:\[[^\]]*\]\s*)?%s' % (re.escape(f), ASSIGN_OPS), m):
+            return f
+        if re.search(r'&mut\s+self\s*\.\s*%s\b' % re.escape(f), m):
+            return f
+    return None
+
+
+def apply_slice(text, sl, fname):
+    """R7 (program slice): the block following `header` is replaced by `repl` after a syntactic check that the removed
+    block assigns none of the fields the contract talks about."""
+    m = mask_noncode(text)
+    if sl.get('start'):
+        # statement range: from the line of `start` through the end of the if/else chain that begins at `header`
+        a = text.find(sl['start'])
+        idx = text.find(sl['header'], a) if a >= 0 else -1
+        if a < 0 or idx < 0 or text.find(sl['start'], a + 1) >= 0:
+            raise ExtractError("lost anchor: slice range %r .. %r in %s" % (sl['start'], sl['header'], fname))
+        k = m.index('{', idx)
+        close = match_close(m, k)
+        while True:
+            em = re.match(r'\s*else\s*(if\b[^{]*)?\{', m[close + 1:])
+            if not em:
+                break
+            k2 = close + 1 + em.end() - 1
+            close = match_close(m, k2)
+        line_start = text.rfind('\n', 0, a) + 1
+        removed = text[line_start:close + 1]
+        bad = assigns_field(removed, sl['forbid'])
+        if bad:
+            raise ExtractError("unsupported construct: sliced range of %s assigns self.%s" % (fname, bad))
+        return text[:line_start] + sl['repl'] + text[close + 1:]
+    idx = text.find(sl['header'])
+    if idx < 0 or text.find(sl['header'], idx + 1) >= 0:
+        raise ExtractError("lost anchor: slice header %r in %s" % (sl['header'], fname))
+    k = m.index('{', idx + len(sl['header']) - 1) if not sl['header'].rstrip().endswith('{') else idx + len(sl['header'].rstrip()) - 1
+    close = match_close(m, k)
+    removed = text[k:close + 1]
+    bad = assigns_field(removed, sl['forbid'])
+    if bad:
+        raise ExtractError("unsupported construct: sliced block of %s assigns self.%s" % (fname, bad))
+    return text[:k] + '{ ' + sl['repl'] + ' }' + text[close + 1:]
 
 
 def make_pub(text):
@@ -385,6 +436,9 @@ def splice_fn(fn_text, spec, notes):
             bodyins = ''
             if inv.get('body'):
                 bodyins = '\n' + inv['body'].rstrip() + '\n'
+            if inv.get('body_end'):
+                close = match_close(mb, k)
+                body = body[:close] + inv['body_end'].rstrip() + '\n' + body[close:]
             if inv.get('after'):
                 close = match_close(mb, k)
                 body = body[:close + 1] + '\n' + inv['after'].rstrip() + '\n' + body[close + 1:]
@@ -464,6 +518,15 @@ def process_template(path, name=None):
             unit.tags[fname] = parse_props(props)
             i += 1
             continue
+        if d.startswith('assert-no-assign '):
+            mm = re.match(r'assert-no-assign\s+(\S+)\s*::\s*(.+?)\s*\|\s*(.*)$', d)
+            it = find_item(mm.group(1), mm.group(2).strip())
+            bad = assigns_field(it.text, mm.group(3).split())
+            if bad:
+                raise ExtractError("unsupported construct: %s assigns self.%s (assumed frame contract would be wrong)" % (mm.group(2), bad))
+            unit.sources.add(mm.group(1))
+            i += 1
+            continue
         if d.startswith('assert-absent '):
             mm = re.match(r'assert-absent\s+(\S+)\s*::\s*(.+?)\s*$', d)
             try:
@@ -534,6 +597,18 @@ def process_template(path, name=None):
                             spec['loops'][k]['decreases'] = parts[3]; cur = None
                         else:
                             spec['loops'][k][what] = ''; cur = ('loop', k, what)
+                    elif d2.startswith('slice '):
+                        sm = re.match(r'slice\s+"(.*)"\s*=>\s*"(.*)"\s*\|\s*(.*)$', d2)
+                        if not sm:
+                            raise ExtractError("bad slice directive: %s" % d2)
+                        spec.setdefault('slices', []).append({'header': sm.group(1), 'repl': sm.group(2), 'forbid': sm.group(3).split()})
+                        cur = None
+                    elif d2.startswith('slice-range '):
+                        sm = re.match(r'slice-range\s+"(.*)"\s*\.\.\s*"(.*)"\s*=>\s*"(.*)"\s*\|\s*(.*)$', d2)
+                        if not sm:
+                            raise ExtractError("bad slice-range directive: %s" % d2)
+                        spec.setdefault('slices', []).append({'start': sm.group(1), 'header': sm.group(2), 'repl': sm.group(3), 'forbid': sm.group(4).split()})
+                        cur = None
                     elif d2.startswith('before '):
                         bm = re.match(r'before\s+(\d+)\s+"(.*)"\s*$', d2)
                         h = {'occ': int(bm.group(1)), 'text': bm.group(2), 'proof': ''}
@@ -558,6 +633,8 @@ def process_template(path, name=None):
                 # only the signature is used: the body is dropped (assumed contract / trait declaration)
                 mk = mask_noncode(itext)
                 itext = itext[:mk.index('{')] + '{ }' if '{' in mk else itext
+            for sl in spec.get('slices', []):
+                itext = apply_slice(itext, sl, fname)
             t = apply_rules(itext, feats)
             if spec.get('rename'):
                 t = re.sub(r'\bfn\s+%s\b' % re.escape(fname), 'fn ' + spec['rename'], t, count=1)
